@@ -353,7 +353,7 @@ class World:
         self.connect_attempts = []
         self.transports = []
         self.tx = []            # (time, tid, bytes, failed:bool)
-        self.deliveries = []    # (time, tid, tx_index, bytes, delivered:bool)
+        self.deliveries = []    # (time, tid, answered tx index, bytes, delivered:bool, tx index in flight at receipt)
         self.events = []        # (time, what, tid)
         self.dropped_sends = []
         self.open = set()
@@ -396,7 +396,7 @@ class World:
 
         def _do():
             ok = tr.peer_deliver(data)
-            self.deliveries.append((loop.vtime, tr.tid, index, data, ok))
+            self.deliveries.append((loop.vtime, tr.tid, index, data, ok, len(self.tx) - 1))
         loop.call_later(delay, _do)
 
     def call_later(self, tr, delay: float, fn, *args):
@@ -423,6 +423,7 @@ class ScriptedPeer:
       ("drop",)                        no answer
       ("answer", d)                    valid answer after delay d
       ("raw", d, bytes)                arbitrary bytes after d
+      ("multi", [(d, bytes), ...])     several arbitrary deliveries for this transmission
       ("garbage", d) / ("short", d)    invalid bytes (long enough to pass the length gate / shorter than a header)
       ("bad", d)                       valid answer with a corrupted checksum (TCP: corrupted byte count)
       ("exc", d, code)                 Modbus exception frame
@@ -471,6 +472,9 @@ class ScriptedPeer:
                 world.deliver_later(tr, a[1], index, resp)
         elif kind == "raw":
             world.deliver_later(tr, a[1], index, a[2])
+        elif kind == "multi":
+            for d, piece in a[1]:
+                world.deliver_later(tr, d, index, piece)
         elif kind == "garbage":
             world.deliver_later(tr, a[1], index, r.garbage(data))
         elif kind == "short":
